@@ -609,6 +609,119 @@ def m1_from_etree(schema: Schema, rep: Report):
         rep.check("M1", "from_etree:returns-SubClass._convert(elem)", ok, f"returns {ast.unparse(r.value) if r.value else None}, which is not <looked-up class>._convert({elem})" if not ok else "", f"{mod.relpath}:{r.lineno}")
 
 
+LOOP_LEFT = "__loop_left_early__"
+
+
+def _loop_reducer(p: Project, outer):
+    """The fold written as an explicit loop over the children:
+
+        args, kwargs, prev, prevflag = [], {}, -1, False
+        for child in elem:
+            <body>; prev, prevflag = index, flag
+
+    is presented to the rules as the reducer function it is equivalent to (`continue` = the accumulator is handed
+    back unchanged, `break` = the fold is abandoned), together with the reduce() call it stands for.  None when the
+    shape is not recognised; the result is cached on the project."""
+    cache = p.__dict__.setdefault("_loop_reducer", {})
+    if "v" in cache:
+        return cache["v"]
+    cache["v"] = None
+    loops = [st for st in outer.body if isinstance(st, ast.For) and isinstance(st.target, ast.Name) and not st.orelse
+             and any(isinstance(c, ast.Call) and isinstance(c.func, ast.Attribute) and c.func.attr == "index" for c in ast.walk(st))
+             and any(isinstance(c, ast.Call) and isinstance(c.func, ast.Attribute) and c.func.attr == "append" for c in ast.walk(st))]
+    if len(loops) != 1:
+        return None
+    loop = loops[0]
+    pre = outer.body[: outer.body.index(loop)]
+    inits = {}
+    for st in pre:
+        if isinstance(st, ast.Assign) and len(st.targets) == 1:
+            tg, v = st.targets[0], st.value
+            if isinstance(tg, ast.Name):
+                inits[tg.id] = v
+            elif isinstance(tg, ast.Tuple) and isinstance(v, ast.Tuple) and len(tg.elts) == len(v.elts) and all(isinstance(t, ast.Name) for t in tg.elts):
+                for t, x in zip(tg.elts, v.elts):
+                    inits[t.id] = x
+        elif isinstance(st, ast.AnnAssign) and isinstance(st.target, ast.Name) and st.value is not None:
+            inits[st.target.id] = st.value
+    appended = {text(c.func.value) for c in ast.walk(loop) if isinstance(c, ast.Call) and isinstance(c.func, ast.Attribute) and c.func.attr == "append" and isinstance(c.func.value, ast.Name)}
+    stored = {text(t.value) for st in ast.walk(loop) if isinstance(st, ast.Assign) for t in st.targets if isinstance(t, ast.Subscript) and isinstance(t.value, ast.Name)}
+    args_n = next((n for n in appended if isinstance(inits.get(n), ast.List) and not inits[n].elts), None)
+    kwargs_n = next((n for n in stored if isinstance(inits.get(n), ast.Dict) and not inits[n].keys), None)
+    if args_n is None or kwargs_n is None:
+        return None
+    # trailing state update(s) at the top level of the loop body
+    body = list(loop.body)
+    updates = {}
+    while body:
+        last = body[-1]
+        pairs = None
+        if isinstance(last, ast.Assign) and len(last.targets) == 1:
+            tg, v = last.targets[0], last.value
+            if isinstance(tg, ast.Name) and tg.id in inits and isinstance(v, ast.Name):
+                pairs = [(tg.id, v.id)]
+            elif isinstance(tg, ast.Tuple) and isinstance(v, ast.Tuple) and len(tg.elts) == len(v.elts) and all(isinstance(t, ast.Name) and t.id in inits for t in tg.elts) and all(isinstance(x, ast.Name) for x in v.elts):
+                pairs = [(t.id, x.id) for t, x in zip(tg.elts, v.elts)]
+        if pairs is None:
+            break
+        for k, v_ in pairs:
+            updates.setdefault(k, v_)
+        body.pop()
+    prev_n = next((k for k in updates if isinstance(inits[k], ast.UnaryOp) or (isinstance(inits[k], ast.Constant) and isinstance(inits[k].value, int) and not isinstance(inits[k].value, bool))), None)
+    flag_n = next((k for k in updates if isinstance(inits[k], ast.Constant) and isinstance(inits[k].value, bool)), None)
+    if prev_n is None:
+        return None
+    state = [args_n, kwargs_n, prev_n] + ([flag_n] if flag_n else [])
+    # the state may change only through those trailing updates
+    for st in body:
+        for x in ast.walk(st):
+            if isinstance(x, ast.Name) and isinstance(x.ctx, ast.Store) and x.id in (prev_n, flag_n, args_n, kwargs_n):
+                return None
+    child = loop.target.id
+
+    class _Exits(ast.NodeTransformer):
+        def visit_For(self, node):
+            return node  # exits of an inner loop are its own
+
+        visit_While = visit_For
+
+        def visit_FunctionDef(self, node):
+            return node
+
+        def visit_Continue(self, node):
+            return ast.copy_location(ast.Return(value=ast.Name(id="accum", ctx=ast.Load())), node)
+
+        def visit_Break(self, node):
+            return ast.copy_location(ast.Return(value=ast.Name(id=LOOP_LEFT, ctx=ast.Load())), node)
+
+    from .dataflow import clone
+
+    new_body = [_Exits().visit(clone(st)) for st in body]
+    src = "def update_args(accum, %s):\n    pass\n" % child
+    fn = ast.parse(src).body[0]
+    unpack = ast.parse("%s = accum" % ", ".join(state)).body[0]
+    ret = ast.parse("return %s" % ", ".join([args_n, kwargs_n, updates[prev_n]] + ([updates[flag_n]] if flag_n else []))).body[0]
+    fn.body = [unpack] + new_body + [ret]
+    for n_ in ast.walk(fn):
+        if not hasattr(n_, "lineno"):
+            continue
+    ast.copy_location(fn, loop)
+    ast.copy_location(unpack, loop)
+    ast.copy_location(ret, body[-1] if body else loop)
+    ast.fix_missing_locations(fn)
+    from .canon import _set_parents
+
+    fn = _set_parents(fn)
+    fn._parent = outer
+    call_src = "functools.reduce(update_args, %s, (%s))" % (text(loop.iter), ", ".join(text(inits[k]) for k in state))
+    call = ast.parse(call_src, mode="eval").body
+    for n_ in ast.walk(call):
+        ast.copy_location(n_, loop)
+    call._synthetic = {"args": args_n, "kwargs": kwargs_n, "loop": loop}
+    cache["v"] = (outer, fn, call)
+    return cache["v"]
+
+
 def reducer(p: Project):
     """(outer _convert FunctionDef, inner reducer FunctionDef, reduce call)"""
     outer = _fn(p, "Aggregate._convert").node
@@ -616,21 +729,27 @@ def reducer(p: Project):
     for n in own_nodes(outer):
         if isinstance(n, ast.Call) and dotted(n.func) in ("functools.reduce", "reduce") and len(n.args) >= 2:
             call = n
-    if call is None:
-        raise AnalysisError("M2: _convert no longer folds the children with functools.reduce")
-    if not isinstance(call.args[0], ast.Name):
-        raise AnalysisError("M2: reducer is not a named local function")
     inner = None
-    for st in own_statements(outer):
-        if isinstance(st, ast.FunctionDef) and st.name == call.args[0].id:
-            inner = st
-    if inner is None:
-        raise AnalysisError("M2: reducer function not found in _convert")
+    if call is None:
+        syn = _loop_reducer(p, outer)
+        if syn is None:
+            raise AnalysisError("M2: _convert no longer folds the children with functools.reduce (and no equivalent loop over the children was recognised)")
+        outer, inner, call = syn
+    else:
+        if not isinstance(call.args[0], ast.Name):
+            raise AnalysisError("M2: reducer is not a named local function")
+        for st in own_statements(outer):
+            if isinstance(st, ast.FunctionDef) and st.name == call.args[0].id:
+                inner = st
+        if inner is None:
+            raise AnalysisError("M2: reducer function not found in _convert")
     # helpers the reducer calls (sibling closures of _convert, private module-level functions) are inlined, so that
     # the rules see one function; a reducer that calls none is analysed as written
     siblings = {st.name for st in ast.walk(outer) if isinstance(st, ast.FunctionDef) and st is not outer and st is not inner}
     mod = p.module(BASE)
-    calls_helper = any(isinstance(c, ast.Call) and isinstance(c.func, ast.Name) and (c.func.id in siblings or (c.func.id.startswith("_") and isinstance(p.resolve(BASE, c.func.id), Func))) for c in ast.walk(inner))
+    agg_ = p.get_class(BASE, "Aggregate")
+    calls_helper = any(isinstance(c, ast.Call) and isinstance(c.func, ast.Name) and (c.func.id in siblings or (c.func.id.startswith("_") and isinstance(p.resolve(BASE, c.func.id), Func))) for c in ast.walk(inner)) \
+        or any(isinstance(c, ast.Call) and isinstance(c.func, ast.Attribute) and isinstance(c.func.value, ast.Name) and c.func.value.id in ("cls", "self") and c.func.attr.startswith("_") and not c.func.attr.startswith("__") and agg_.own_func(c.func.attr) is not None for c in ast.walk(inner))
     if calls_helper:
         cache = p.__dict__.setdefault("_flat_reducer", {})
         if "inner" not in cache:
@@ -696,8 +815,28 @@ def m2_update_args(schema: Schema, rep: Report):
             rep.check("M2", "update_args:list-membership-test", False, "list member appended without a membership test", f"{rel}:{a.lineno}")
             continue
         t = ex.x(iff.test)
-        comps = [text(c.comparators[0]) for c in ast.walk(t) if isinstance(c, ast.Compare) and len(c.ops) == 1 and isinstance(c.ops[0], ast.In) and text(c.left) == keytxt]
-        ok = f"{cls}.listaggregates" in comps
+        cnodes = [c.comparators[0] for c in ast.walk(t) if isinstance(c, ast.Compare) and len(c.ops) == 1 and isinstance(c.ops[0], ast.In) and text(c.left) == keytxt]
+        comps = [text(c) for c in cnodes]
+
+        def _union_of_list_tables(e) -> bool:
+            """a container put together from cls.listaggregates (and cls.listelements) only: {**a, **b}, a | b,
+            ChainMap(a, b), set(a) | set(b), [*a, *b] ..."""
+            leaves = [x for x in ast.walk(e) if isinstance(x, ast.Attribute)]
+            if not leaves or any(text(x) not in (f"{cls}.listaggregates", f"{cls}.listelements") for x in leaves):
+                return False
+            if f"{cls}.listaggregates" not in {text(x) for x in leaves}:
+                return False
+            for x in ast.walk(e):
+                if isinstance(x, (ast.Attribute, ast.Name, ast.Load, ast.Dict, ast.List, ast.Set, ast.Tuple, ast.Starred, ast.BitOr)):
+                    continue
+                if isinstance(x, ast.BinOp) and isinstance(x.op, ast.BitOr):
+                    continue
+                if isinstance(x, ast.Call) and (dotted(x.func) or "").split(".")[-1] in ("set", "list", "tuple", "dict", "frozenset", "ChainMap", "chain") and not x.keywords:
+                    continue
+                return False
+            return True
+
+        ok = f"{cls}.listaggregates" in comps or any(_union_of_list_tables(c) for c in cnodes)
         rep.check("M2", "update_args:list-membership-test", ok, f"membership tested against {comps}, expected {cls}.listaggregates" if not ok else "", f"{rel}:{iff.lineno}")
     # the instance is built from exactly the accumulated args/kwargs
     rets = [n for n in own_nodes(outer) if isinstance(n, ast.Return)]
